@@ -59,7 +59,7 @@ def dc_models():
     out = []
     for n in (1, 2, 3):
         for ndef in range(0, n + 1):
-            for kind in ("dataclass", "namedtuple", "dc-initfalse", "dc-kwonly"):
+            for kind in ("dataclass", "namedtuple", "dc-initfalse", "dc-kwonly", "dc-allkwonly"):
                 out.append((kind, n, ndef))
     return out
 
@@ -77,6 +77,9 @@ def dc_source(kind, n, ndef):
         # the first field is keyword-only: the signature lists it last
         fields.insert(0, "    kw: int = field(default=9, kw_only=True)")
         return "from dataclasses import dataclass, field\n@dataclass\nclass DC:\n" + "\n".join(fields) + "\n"
+    if kind == "dc-allkwonly":
+        # every field is keyword-only: no argument can be given by position
+        return "from dataclasses import dataclass\n@dataclass(kw_only=True)\nclass DC:\n" + "\n".join(fields) + "\n"
     if kind == "dataclass":
         return "from dataclasses import dataclass\nfrom typing import NamedTuple\n@dataclass\nclass DC:\n" + "\n".join(fields) + "\n"
     return "from dataclasses import dataclass\nfrom typing import NamedTuple\nclass DC(NamedTuple):\n" + "\n".join(fields) + "\n"
@@ -124,6 +127,9 @@ class C06(Check):
                   runner="run_comp"),
             Space("constructors", {"fields": "1..3", "kinds": ["dataclass", "NamedTuple"]},
                   (lambda: [(m, s) for m in dc_models() for s in dc_shapes(m[1])]), runner="run_dc"),
+            Space("constructors-in-queries", {"calls": self.CQ_CALLS, "uses": self.CQ_USES, "path": "real Select with a Python "
+                                              "callable in a generated module (helpers inlined, constructor used twice)"},
+                  self._cq_cases, runner="run_cq"),
             Space("malformed-comprehensions", {"forms": ["tuple target", "async for", "two for clauses (outside: accepted either way)"]},
                   [("tuple", 0), ("async", 0), ("tuple-nested", 0)], runner="run_malformed"),
         ]
@@ -212,6 +218,89 @@ class C06(Check):
         return res
 
     # ------------------------------------------------------------------ B
+    # ------------------------------------------------------------------ C: constructors inside real queries
+    CQ_CALLS = ["DC(e.a, e.b)", "DC(e.a, f1=e.b)", "DC(f1=e.b, f0=e.a)", "DC(f0=e.a)", "DC(e.a)", "NT(e.a, e.b)", "NT(f1=e.b, f0=e.a)",
+                "NT(e.a, f1=e.b)"]
+    CQ_USES = ["{c}.f0", "({c}.f0, {c}.f1)", "h1({c})", "h2({c})", "(lambda x: (x.f0, x.f1, x.f0))({c})", "h3({c}, {c})",
+               "e.jets.Select(lambda j: h2({c}))", "[h1({c}) for j in e.jets if {c}.f0 > 0]"]
+    CQ_HEAD = ("from dataclasses import dataclass\nfrom typing import NamedTuple\n@dataclass\nclass DC:\n    f0: int\n    f1: int = 5\n"
+               "class NT(NamedTuple):\n    f0: int\n    f1: int = 6\n"
+               "def h1(x): return x.f0\ndef h2(x): return (x.f0, x.f1, x.f0)\ndef h3(x, y): return (x.f1, y.f0)\n")
+
+    def _cq_cases(self):
+        # a defaulted field that the call omits is not a key of the dictionary (assumption 2): such uses read f0 only
+        return [(c, u) for c in self.CQ_CALLS for u in self.CQ_USES
+                if "f1" in c or c.count(",") == 1 or not any(t in u for t in ("f1", "h2", "h3"))]
+
+    def run_cq(self, payload):
+        from func_adl import EventDataset
+
+        call, use = payload
+        body = use.format(c=call)
+        lam_src = f"lambda e: {body}"
+        canon = repr(payload)
+        res = {"n": 0, "nt": [canon], "oc": [], "tags": {}, "viol": []}
+        _N[0] += 1
+        fn = f"<c06cq{_N[0]}>"
+        text = self.CQ_HEAD + f"def build(ds):\n    return ds.Select(\n        {lam_src}\n    )\nORIG = (\n    {lam_src}\n)\n"
+        linecache.cache[fn] = (len(text), None, text.splitlines(True), fn)
+        g = {"len": len, "list": list}
+
+        class DS(EventDataset):
+            async def execute_result_async(self, a, title=None):
+                return a
+
+        try:
+            exec(compile(text, fn, "exec"), g)
+            st = g["build"](DS())
+        except Exception as e:
+            res["oc"].append("raised")
+            res["viol"].append({"kind": f"valid-constructor-use-raised:{type(e).__name__}", "canon": canon, "msg": f"{lam_src}: {e}"[:200]})
+            return res
+        finally:
+            linecache.cache.pop(fn, None)
+        emitted = st.query_ast.args[1]
+        left = [n for n in ast.walk(emitted) if isinstance(n, ast.Call) and isinstance(n.func, (ast.Constant, ast.Name))
+                and (getattr(n.func, "value", None) in (g["DC"], g["NT"]) or getattr(n.func, "id", None) in ("DC", "NT"))]
+        if left:
+            res["oc"].append("not-lowered")
+            res["viol"].append({"kind": "constructor-not-lowered", "canon": canon, "msg": ast.dump(left[0])[:150]})
+            return res
+        try:
+            fq = refsem.compile_query(ast.Call(ast.Name("Select", ast.Load()), [ast.Name("ds", ast.Load()), emitted], []),
+                                      extra_env={"list": list, "h1": g["h1"], "h2": g["h2"], "h3": g["h3"]})
+        except Exception as e:
+            res["viol"].append({"kind": "emitted-lambda-uncompilable", "canon": canon, "msg": str(e)[:150]})
+            return res
+        nok = 0
+        for d in refsem.datasets(False):
+            try:
+                want = ("ok", refsem.norm(refsem.Seq(d).Select(g["ORIG"])))
+            except Exception:
+                continue
+            nok += 1
+            got = refsem.evaluate(fq, d)
+            res["n"] += 1
+            if got != want:
+                res["oc"].append("mismatch")
+                res["viol"].append({"kind": "lowered-constructor-computes-something-else", "canon": canon,
+                                    "msg": f"{lam_src} emitted {ast.unparse(emitted)[:160]!r}: python {str(want[1])[:80]} emitted {str(got[1])[:80]}"})
+                return res
+        if not nok:
+            raise RuntimeError(f"harness: original fails everywhere: {lam_src}")
+        res["oc"].append("lowered-faithfully")
+        return res
+
+    def pair_menu(self, tier):
+        """constructor calls lowered one after the other in ONE process: classes that share module and qualified
+        name but have different field lists (a redefined class) must each be bound by their own signature"""
+        menu = [(("dataclass", 1, 0), (1, (), None)), (("dataclass", 2, 0), (2, (), None)), (("dataclass", 3, 1), (1, (1,), None)),
+                (("dataclass", 3, 3), (0, (2, 0), None)), (("namedtuple", 2, 0), (0, (1, 0), None)),
+                (("namedtuple", 3, 0), (3, (), None)), (("dc-kwonly", 2, 0), (1, (1,), None)),
+                (("dc-allkwonly", 2, 0), (0, (1, 0), None)), (("dc-initfalse", 2, 0), (2, (), None)),
+                (("dataclass", 2, 0), (3, (), None)), (("dataclass", 1, 0), (0, (), "zz"))]
+        return [("constructors", "run_dc", m) for m in menu]
+
     def run_dc(self, payload):
         from func_adl.ast.syntatic_sugar import resolve_syntatic_sugar
 
